@@ -311,6 +311,10 @@ func c10Callables() []c10Callable {
 	return out
 }
 
+// keyword-only calls (no positional argument)
+var c10KwOnly = []py.StringDict{{"x": py.Int(1)}, {"key": py.None}, {"sep": py.String(",")}, {"reverse": py.True}, {"end": py.String(""), "sep": py.String("")}}
+var c10KwOnlyDesc = []string{"x=1", "key=None", "sep=','", "reverse=True", "end='', sep=''"}
+
 type c10Outcome struct {
 	calls, raised, returned, panics, timeouts, skipped int64
 }
@@ -338,6 +342,7 @@ func c10RunCallable(r *Run, c c10Callable, maxArity int, progress func(string)) 
 		ctx, vals, _ = c10Universe()
 		f, _ = c.get(ctx, vals)
 	}
+	kwOnlyIx := 0
 	call := func(args []int, kw bool) {
 		if f == nil {
 			return
@@ -354,9 +359,13 @@ func c10RunCallable(r *Run, c c10Callable, maxArity int, progress func(string)) 
 		}
 		var kwargs py.StringDict
 		desc := c.name + "(" + strings.Join(names, ", ")
-		if kw {
+		if kw && len(args) > 0 {
 			kwargs = py.StringDict{"key": vals[args[0]].obj, "x": py.Int(1)}
 			desc += ", key=" + names[0] + ", x=1"
+		} else if kw {
+			// keywords only, no positional argument at all (a method reached through its class then has no receiver)
+			kwargs = c10KwOnly[kwOnlyIx]
+			desc += c10KwOnlyDesc[kwOnlyIx]
 		}
 		desc += ")"
 		if progress != nil {
@@ -382,7 +391,7 @@ func c10RunCallable(r *Run, c c10Callable, maxArity int, progress func(string)) 
 		switch {
 		case pclass != "":
 			oc.panics++
-			r.Mismatch(&Case{Kind: "c10", Sig: "panic:" + ptop + ":" + pclass, Program: desc, Args: map[string]interface{}{"callable": c.name, "args": names, "kw": kw},
+			r.Mismatch(&Case{Kind: "c10", Sig: "panic:" + ptop + ":" + pclass, Program: desc, Args: map[string]interface{}{"callable": c.name, "args": names, "kw": kw, "kwonly": kwOnlyIx},
 				Expected: "a value or a Python exception", Actual: "Go panic: " + pmsg, Detail: "top gpython frame: " + ptop})
 		case cerr != nil:
 			cls, _ := ErrClass(cerr)
@@ -400,6 +409,9 @@ func c10RunCallable(r *Run, c c10Callable, maxArity int, progress func(string)) 
 	}
 	n := len(vals)
 	call(nil, false)
+	for kwOnlyIx = range c10KwOnly {
+		call(nil, true)
+	}
 	if maxArity >= 1 {
 		for i := 0; i < n; i++ {
 			call([]int{i}, false)
@@ -520,6 +532,11 @@ func init() {
 			var kwargs py.StringDict
 			if kw && len(a) > 0 {
 				kwargs = py.StringDict{"key": a[0], "x": py.Int(1)}
+			} else if kw {
+				ix, _ := c.Args["kwonly"].(float64)
+				if int(ix) >= 0 && int(ix) < len(c10KwOnly) {
+					kwargs = c10KwOnly[int(ix)]
+				}
 			}
 			pclass, ptop, pmsg := Protect(func() { f(a, kwargs) })
 			if pclass != "" {
